@@ -86,7 +86,9 @@ long_name = st.builds(lambda c, n, e: c * n + e, st.sampled_from(["a", "b9", "\x
 quirky_name = st.sampled_from(["cURL: tips.txt", "xURL:http:y", "my URL:s", "aURL:", "GET x HTTP", "a gemini:", "x.zip.txt", "not.mbox.txt",
                                "file.gophermapx", "x.tal.txt", "README.html.bak", "a|b", "a?b", "50% off", "a+b c", "wapx", "x.pyg.txt",
                                # literal percent escapes in a NAME (decoded once too often they name something else)
-                               "a%41.txt", "a%20b", "100%25", "%2e%2e", "x%2fy", "%E9t%C3%A9"])
+                               "a%41.txt", "a%20b", "100%25", "%2e%2e", "x%2fy", "%E9t%C3%A9",
+                               # what a %-format, str.format or a regular-expression template would expand
+                               "100% juice", "rate%d", "%s.txt", "%(name)s", "{0}.txt", "{name}", "a\\1b"])
 
 
 def names(gopher_ok=True, hostile_ratio=0.4, toplevel=True, full=False, long_ratio=0):
